@@ -714,6 +714,7 @@ type c51Scenario struct {
 	Entries     []c51Entry
 	Refuse      map[string]string
 	Batches     [][]c51Hello
+	SecondMgr   bool // the last batch is served by a second Manager sharing the Cache
 }
 
 func c51DumpCase(sc *c51Scenario) {
@@ -880,6 +881,9 @@ func c51ManagerScenario(rt *rapid.T, c *ev.Collector) {
 			}
 		}
 	}
+	if sc.Cache != "nil" && nBatches >= 2 {
+		sc.SecondMgr = rapid.IntRange(0, 2).Draw(rt, "secondManager") == 1
+	}
 	if rapid.IntRange(0, 5).Draw(rt, "refuseSome") == 0 {
 		sc.Refuse[ascii[rapid.IntRange(0, nNames-1).Draw(rt, "refuseIdx")]] = rapid.SampledFrom([]string{"order", "finalize"}).Draw(rt, "refuseAt")
 	}
@@ -959,9 +963,22 @@ func c51ManagerScenario(rt *rapid.T, c *ev.Collector) {
 		}
 	}
 	defer autocert.VerifStopRenew(m)
-	ca.mu.Lock()
-	ca.getCert = m.GetCertificate
-	ca.mu.Unlock()
+	// "Multiple Managers can share the same Cache": optionally a fresh Manager, which
+	// sees only what the first one left in the cache, serves the last batch.
+	m1, managers := m, 1
+	var m2 *autocert.Manager
+	if sc.SecondMgr {
+		m2 = &autocert.Manager{
+			Prompt:      autocert.AcceptTOS,
+			RenewBefore: rb,
+			Cache:       cache,
+			HostPolicy:  m1.HostPolicy,
+			Client:      &xacme.Client{DirectoryURL: caBase + "/dir", HTTPClient: &http.Client{Transport: ca}},
+		}
+		autocert.VerifSetNow(m2, func() time.Time { return now })
+		defer autocert.VerifStopRenew(m2)
+		managers = 2
+	}
 
 	// run the batches
 	requestedTypes := map[string]map[string]bool{}
@@ -969,6 +986,13 @@ func c51ManagerScenario(rt *rapid.T, c *ev.Collector) {
 	var classes []string
 	served, failed := 0, 0
 	for bi, batch := range sc.Batches {
+		m := m1
+		if m2 != nil && bi == len(sc.Batches)-1 {
+			m = m2
+		}
+		ca.mu.Lock()
+		ca.getCert = m.GetCertificate
+		ca.mu.Unlock()
 		results := make([]c51Result, len(batch))
 		var started sync.WaitGroup
 		var wg sync.WaitGroup
@@ -1073,7 +1097,11 @@ func c51ManagerScenario(rt *rapid.T, c *ev.Collector) {
 
 	// wait for stragglers of the manager (authorization clean-up) so that the CA log is complete enough,
 	// then stop renewal timers (waits for in-flight renewals)
-	autocert.VerifStopRenew(m)
+	autocert.VerifStopRenew(m1)
+	if m2 != nil {
+		autocert.VerifStopRenew(m2)
+		classes = append(classes, "managers:2(shared cache)")
+	}
 
 	ca.mu.Lock()
 	trouble := append([]string(nil), ca.trouble...)
@@ -1121,7 +1149,7 @@ func c51ManagerScenario(rt *rapid.T, c *ev.Collector) {
 		for _, a := range ascii {
 			inUniverse = inUniverse || a == d
 		}
-		if n > 1 && inUniverse && len(requestedTypes[d]) <= 1 && !due[d] && !due[d+"+rsa"] {
+		if n > managers && inUniverse && len(requestedTypes[d]) <= 1 && !due[d] && !due[d+"+rsa"] {
 			rt.Fatalf("VF-VIOLATION: property=C51 %d orders were started for %q although every request asked for the same key type; concurrent requests for one name must share one issuance [batches=%v]", n, d, c51BatchSizes(sc.Batches))
 		}
 	}
